@@ -208,8 +208,11 @@ def alter(bundle, alteration, sec_type=11):
             for prm in asb['params'] or []:
                 if prm[0] == 5:
                     scope = dict(prm[1])
-                    key = sorted(scope)[alteration[1] % len(scope)]
-                    scope[key] ^= 0x02 if key not in (0, -2) else 0x01
+                    if not scope:
+                        scope[-1] = 1      # (an empty scope gets an entry)
+                    else:
+                        key = sorted(scope)[alteration[1] % len(scope)]
+                        scope[key] ^= 0x02 if key not in (0, -2) else 0x01
                     prm[1] = scope
         out = edit_asb(out, sec_type, func)
     elif kind == 'sec-scope-retype':
